@@ -512,6 +512,8 @@ def _specialise_merged(facts):
             if g.body is not None:
                 retarget(g.body)
         F.absorbed = True
+        facts.specialised = getattr(facts, "specialised", {})
+        facts.specialised[F.def_] = list(made)
         notes.append("unrecorded fn `%s` merges recorded fns behind a bool flag: analysed as %s" % (fb.last2(F.def_), ", ".join("`%s`" % fb.last2(m) for m in made)))
     return notes
 
